@@ -64,7 +64,7 @@ def run(chk):
     _state.run_state(chk)
     _state.run_length_wrap(chk)
     from props import C09 as _c09
-    _c09.run_batch_rules(chk)
+    _c09.run_batch_rules(chk, extra_random=2500 if chk.tier == "quick" else 40000)   # values near 2^32 must raise, not wrap
     for f in _compose.load(["_funcs"], chk):
         if hasattr(f, "run_malformed"):
             f.run_malformed(chk)
